@@ -6,7 +6,8 @@ from ..program import AnalysisError, walk_local, dotted
 from ..analysis import Spec, src, class_const, const_value
 from ..deps import Deps
 from ..rules import (flow_canon, regex_match, substitute_locals, guard_paths, inside, before, GWF, EXC, mpt, need_func, stores_to, raise_class,
-                     chained_assign_value, is_const, explicit_exits)
+                     chained_assign_value, is_const, explicit_exits,
+                     http_status_of)
 from . import common
 from .c04 import signature, diff_sig
 from .c12 import _first_exit
@@ -134,6 +135,59 @@ def bypass_exits(prog, an, rep):
               '"not configured" looks at %s' % sorted(seen_settings))
     ref = an.branch_nodes(f, _has_call(an, f, Spec.func(
         J + '.check_issue_reference')), False)
+    # nothing is demanded of a pull request whose gate is bypassed or on an
+    # instance without Jira: every check that can refuse runs after the
+    # bypass tests said "not bypassed" and the settings test said
+    # "configured"
+    open_ = [('the bypass option', an.branch_nodes(f, _has_call(
+        an, f, Spec.func(GWF + '.utils.bypass_jira_check')), False))]
+    for t in prefix_tests:
+        open_.append(('the prefix bypass', c.branch(
+            t, not isinstance(t.matched.ops[0], ast.In))))
+    for t in conf_tests:
+        open_.append(('"Jira is configured" (%s)' % src(t.ast)[:40],
+                      c.branch(t, True)))
+    for q in (J + '.check_issue_reference', J + '.get_jira_issue',
+              J + '.check_project', J + '.check_issue_type',
+              J + '.check_fix_versions'):
+        for t in an.target_nodes(f, Spec.func(q), depth=0):
+            for label, gates in open_:
+                rep.evaluated()
+                ok, path = c.must_pass(gates, t.id)
+                rep.check(ok and bool(gates), 'C11.MPT.bypass-first',
+                          '%s: %s runs only after %s' % (
+                              f.qname, q.rpartition('.')[2], label),
+                          f.where(t), '%s can refuse a pull request before '
+                          '%s was looked at: the gate applies where it must '
+                          'not' % (q.rpartition('.')[2], label),
+                          path=c.describe_path(path))
+    if not ref:
+        # the reference check folded into the fetch: get_jira_issue answers
+        # None exactly for a ticketless pull request, and jira_checks leaves
+        # on None
+        g = need_func(an, J + '.get_jira_issue')
+        gc = an.cfg(g)
+        gref = an.branch_nodes(g, _has_call(an, g, Spec.func(
+            J + '.check_issue_reference')), False)
+        valued = [n.id for n in gc.nodes.values() if n.kind == 'return' and
+                  n.ast.value is not None and
+                  not is_const(n.ast.value, None)]
+        ok, _ = gc.must_pass(gref + valued, gc.exit, use_exc=False)
+        gi_calls = an.direct_calls(f, Spec.func(J + '.get_jira_issue'))
+        ivars = {n.targets[0].id for n in walk_local(f.node,
+                                                     include_root=False)
+                 if isinstance(n, ast.Assign) and n.value in gi_calls and
+                 isinstance(n.targets[0], ast.Name)}
+        if ok and gref and len(ivars) == 1:
+            iv = next(iter(ivars))
+            for t in an.test_nodes(
+                    f, lambda e: isinstance(e, ast.Compare) and
+                    len(e.ops) == 1 and src(e.left) == iv and
+                    isinstance(e.ops[0], (ast.Is, ast.IsNot)) and
+                    is_const(e.comparators[0], None)):
+                ref += c.branch(t, isinstance(t.matched.ops[0], ast.Is))
+            for t in an.test_nodes(f, lambda e: src(e) == iv):
+                ref += c.branch(t, False)
     rep.check(len(byp) > 0 and len(prefix) > 0 and len(conf) > 0 and
               len(ref) > 0, R, f.qname + ': the four documented bypass '
               'edges exist', f.where(), 'bypass edges found: option=%d '
@@ -495,7 +549,7 @@ def issue_lookup(prog, an, rep):
     c = an.cfg(f)
     t404 = an.branch_nodes(
         f, lambda e: isinstance(e, ast.Compare) and 'status_code' in src(e)
-        and is_const(e.comparators[0], 404) and
+        and http_status_of(e.comparators[0]) == 404 and
         isinstance(e.ops[0], ast.Eq), True)
     raises = [n for n in c.nodes.values() if n.kind == 'raise_stmt' and
               (raise_class(an, f, n.ast) or '').endswith(
